@@ -326,4 +326,5 @@ func main() {
 	writeIfChanged(filepath.Join(outDir, "ObsApp.lean"), genObsApp(repoRoot)) // C08 app layer (extract/obsapp.go): never exits
 	writeIfChanged(filepath.Join(outDir, "Routing.lean"), genRouting(repoRoot)) // C01 / C11 (extract/routing.go): never exits
 	writeIfChanged(filepath.Join(outDir, "ChainFacts.lean"), genChainFacts(repoRoot)) // C02 / C10 (extract/chainfacts.go): never exits
+	writeIfChanged(filepath.Join(outDir, "Logging.lean"), genLogging(repoRoot)) // C20 (extract/logging.go): never exits
 }
